@@ -121,6 +121,11 @@ type SimNode struct {
 	roundChecked    map[int]bool
 	lagCounted      map[int]bool
 	explicitSuspend bool
+	// maintenance-mode session (C17): the next start of this node uses
+	// conf.MaintenanceMode / a store in maintenance mode; while the session lasts
+	// the node has no transport (nobody reaches it through the network)
+	maintNext   bool
+	maintenance bool
 	ownScanned      int
 	ownPayload      map[string]int
 	sigChecked      map[string]bool
@@ -423,7 +428,7 @@ func (c *Cluster) startNode(n *SimNode, bootstrap bool) error {
 	conf.JoinTimeout = time.Duration(c.cfg.JoinTimeoutMs) * time.Millisecond
 	conf.EnableFastSync = n.fastSync
 	conf.Bootstrap = bootstrap
-	conf.MaintenanceMode = false
+	conf.MaintenanceMode = n.maintNext
 	conf.Moniker = n.moniker
 	n.conf = conf
 
@@ -432,7 +437,7 @@ func (c *Cluster) startNode(n *SimNode, bootstrap bool) error {
 		if n.dbPath == "" {
 			n.dbPath = filepath.Join(c.workdir, fmt.Sprintf("db-n%d-e%d", n.idx, n.epoch))
 		}
-		bs, err := hg.NewBadgerStore(n.cacheSize, n.dbPath, false, conf.Logger())
+		bs, err := hg.NewBadgerStore(n.cacheSize, n.dbPath, n.maintNext, conf.Logger())
 		if err != nil {
 			return fmt.Errorf("NewBadgerStore(%s): %v", n.dbPath, err)
 		}
